@@ -150,6 +150,9 @@ func runC12(c *Ctx) {
 	for i := 0; i < 16; i++ {
 		c12CloseFails(c, i)
 	}
+	for i := 0; i < 48; i++ {
+		c12SourceFails(c, i)
+	}
 	nham := 400
 	if c.Thorough() {
 		nham = 6000
@@ -651,4 +654,98 @@ func c12CloseWire(c *Ctx, from string, i int, arrivals string) {
 		c.NT(n)
 	}
 	c.Stat("closewire_cases")
+}
+
+// c12FailingSource hands out its data and then fails with an error that is not io.EOF - in the middle of a chunk, so that
+// the last Read (or io.ReadFull) returns bytes AND the error.
+type c12FailingSource struct {
+	data []byte
+	pos  int
+	step int
+}
+
+var errC12Source = errors.New("c12: the source failed")
+
+func (r *c12FailingSource) Read(p []byte) (int, error) {
+	if r.pos >= len(r.data) {
+		return 0, errC12Source
+	}
+	n := len(p)
+	if r.step > 0 && n > r.step {
+		n = r.step
+	}
+	if n >= len(r.data)-r.pos {
+		n = copy(p, r.data[r.pos:])
+		r.pos += n
+		return n, errC12Source // the bytes and the error together
+	}
+	copy(p[:n], r.data[r.pos:])
+	r.pos += n
+	return n, nil
+}
+func (r *c12FailingSource) Len() int { return len(r.data) - r.pos + 1000 } // announces more than it will deliver
+
+// c12SourceFails (kind srcfail): ReadFrom / ReadFromWithConcurrency from a source that fails part-way, not on a chunk boundary,
+// every WRITE accepted. The call reports the source's error and the bytes it consumed; those bytes are in the file, and the
+// offset has advanced by exactly the bytes transferred (a following Write must not overwrite them nor leave a hole).
+func c12SourceFails(c *Ctx, i int) {
+	pk := []int{8, 32, 1024}[i%3]
+	total := []int{pk/2 + 1, pk + 3, 3*pk + pk/2, 7*pk + 1}[(i/3)%4]
+	conc := i%2 == 1
+	cw := (i/2)%2 == 1
+	start := []int64{0, 5}[(i/12)%2]
+	src := patternBytes(700+i, total)
+	c1, c2 := net.Pipe()
+	peer := &filePeer{store: patternBytes(0, 10), maxTx: 32768, regular: true, rng: rand.New(rand.NewSource(int64(i))), window: 4, permute: i%5 == 4}
+	go peer.serve(c2)
+	cl, err := sftp.NewClientPipe(c1, c1, sftp.MaxPacketUnchecked(pk), sftp.MaxConcurrentRequestsPerFile(3), sftp.UseConcurrentWrites(cw))
+	if err != nil {
+		c.Diag("srcfail client: %v", err)
+		return
+	}
+	defer cl.Close()
+	f, err := cl.OpenFile("/f", os.O_RDWR)
+	if err != nil {
+		c.Diag("srcfail open: %v", err)
+		return
+	}
+	f.Seek(start, io.SeekStart)
+	r := &c12FailingSource{data: src, step: []int{0, 3, pk}[i%3]}
+	var n int64
+	var rerr error
+	done := make(chan struct{})
+	go func() {
+		defer close(done)
+		if conc {
+			n, rerr = f.ReadFromWithConcurrency(r, 3)
+		} else {
+			n, rerr = f.ReadFrom(r)
+		}
+	}()
+	cn := c.Case("srcfail", kvi("i", i), kvi("p", pk), kvi("total", total), kvb("conc", conc), kvb("cw", cw), kvx("start", uint64(start)))
+	c.NT(cn)
+	c.Stat("srcfail_cases")
+	select {
+	case <-done:
+	case <-time.After(10 * time.Second):
+		c.Oracle(cn, false, "ReadFrom from a failing source did not return within 10 s")
+		return
+	}
+	off, _ := f.Seek(0, io.SeekCurrent)
+	f.Close()
+	peer.mu.Lock()
+	file := append([]byte(nil), peer.store...)
+	peer.mu.Unlock()
+	ok, why := true, ""
+	switch {
+	case !errors.Is(rerr, errC12Source):
+		ok, why = false, fmt.Sprintf("the source failed; ReadFrom returned n=%d err=%v", n, rerr)
+	case n != int64(total):
+		ok, why = false, fmt.Sprintf("the source handed out %d bytes before it failed; ReadFrom reports %d", total, n)
+	case off != start+n:
+		ok, why = false, fmt.Sprintf("offset-vs-transfer: %d bytes were transferred from offset %d, the File offset is %d afterwards", n, start, off)
+	case int64(len(file)) < start+n || !bytes.Equal(file[start:start+n], src):
+		ok, why = false, fmt.Sprintf("the %d bytes consumed from the source are not in the file at offset %d (file has %d bytes)", n, start, len(file))
+	}
+	c.Oracle(cn, ok, why)
 }
